@@ -218,14 +218,23 @@ theorem check_sound_ret (k : Kernel) (h : k.check = true) (r : Var) (allowedR : 
 
 theorem check_public (k : Kernel) (h : k.check = true) (hp : k.isPublic = true) : k.allowed = [] := by
   simp only [Kernel.check, Bool.and_eq_true, decide_eq_true_eq, Bool.or_eq_true, Bool.not_eq_true'] at h
-  rcases h.1.2.1 with h' | h'
+  rcases h.1.2.1.1 with h' | h'
   · simp [hp] at h'
   · simpa using h'
 
 /-- no kernel that passes the check may write a pseudo-argument (module-level mutable state) -/
 theorem check_globals (k : Kernel) (h : k.check = true) : ∀ j ∈ k.allowed, j < k.nreal := by
   simp only [Kernel.check, Bool.and_eq_true, decide_eq_true_eq, List.all_eq_true] at h
-  exact h.1.2.2
+  exact h.1.2.1.2
+
+/-- a public kernel that does not return a container of its own may only return aliases of real arguments -/
+theorem check_ret_globals (k : Kernel) (h : k.check = true) (hp : k.isPublic = true) (hc : k.retContainer = false) :
+    ∀ r ∈ k.rets, ∀ j ∈ r.2, j < k.nreal := by
+  simp only [Kernel.check, Bool.and_eq_true, decide_eq_true_eq, List.all_eq_true, Bool.or_eq_true, Bool.not_eq_true'] at h
+  rcases h.1.2.2 with (h' | h') | h'
+  · simp [hp] at h'
+  · simp [hc] at h'
+  · exact h'
 
 end ScnVerif.Lemmas.Heap
 
